@@ -77,6 +77,8 @@ def gen(rng, tier):
     if mode == "ids" and (spec["profile"].get("same_ids") or spec["profile"].get("prefix_ids")):
         mode = "perm"
     spec["mode"] = mode
+    if rng.random() < 0.1 and not spec["model"].get("comp_ctor_tasks"):
+        spec["copies_twin"] = True
     n = len(spec["model"]["tasks"])
     if mode == "perm":
         if tier == "thorough" and n <= 5 and rng.random() < 0.5:
@@ -90,6 +92,13 @@ def gen(rng, tier):
         spec["garbage"] = [rng.randint(1, 4000) for _ in range(rng.randint(1, 4))]
     elif mode == "again":
         p = spec["profile"]
+        if rng.random() < 0.25 and not spec["model"].get("reg_order"):
+            # an organisation without a single team (automatic work only); workplaces, if any, stay
+            for t_ in spec["model"]["tasks"]:
+                t_["auto"] = True
+                t_.setdefault("rate", 1.0)
+                t_.pop("fixw", None)
+            spec["model"]["teams"] = []
         spec["cfgB"] = G.gen_cfg(rng, p)
         spec["pre_again"] = rng.choice([None, "initialize", "pert0", "sim0", "workflow_initialize"])
     else:
@@ -224,6 +233,20 @@ def run(spec):
         if diff is not None:
             res.add("address", "C09.depends_on_id_string_identity",
                     "the same model with main_workplace_id being the workplace's ID object vs an equal copy of it differs at %s: %r vs %r" % diff, None)
+    if ref.out.ok and spec.get("copies_twin"):
+        # the same model with workers and components made as shallow copies of one template object (every setting then given
+        # per copy) instead of by constructor calls: same result
+        scen.setup_run(spec.get("seed", 0))
+        b3 = B.build(dict(m, worker_copies="share_all", comp_copies=True), spec.get("ranks"))
+        rec3, out3 = scen.simulate(b3.project, spec["cfg"], want_snap=False)
+        d3 = D.dump(b3.project)
+        d3["_outcome"] = [out3.ok, out3.exc_type, out3.where]
+        res.count("copied_objects_twin_compared")
+        diff = D.first_diff(dref, d3)
+        if diff is not None:
+            res.add("address", "C09.depends_on_how_objects_were_made",
+                    "the same model with workers/components made by copy.copy of a template (settings assigned afterwards) vs by constructor "
+                    "calls differs at %s: %r vs %r" % diff, None)
     if mode == "perm":
         perms = spec.get("perms")
         if perms == "all":
